@@ -14,11 +14,11 @@ use vengine::Tier;
 pub enum Shape {
     /// X = G
     Iso,
-    /// X = G · diag(10^(-r·j/(p-1))) · Q, Q = Gram–Schmidt of `mix` (population singular ratio 10^r, r ≤ 3 − column-scale span)
+    /// X = G · diag(10^(-r·j/(p-1))) · Q, Q = Gram–Schmidt of `mix` (population singular ratio 10^r, r ≤ 3)
     Aniso { log_ratio: f64 },
     /// X = G[:, ..rank] · mix[..rank, :] + noise · G (noise relative to the unit loadings, ≥ 1e-3)
     LowRank { rank: usize, noise: f64 },
-    /// X = G · diag(10^(e_j / 2)), e_j ∈ −3..=3 (badly scaled columns, singular ratio ≤ 1e3)
+    /// X = G · diag(10^((e_j − max e) / 2)), e_j ∈ −6..=0 (badly scaled columns, column scales 1e-3..1, singular ratio ≤ ~1e3)
     Scaled { half_exps: Vec<i8> },
 }
 
@@ -129,8 +129,10 @@ pub fn build_x(c: &Case) -> Mat {
         Shape::Scaled { half_exps } => {
             for i in 0..n {
                 for j in 0..p {
+                    // relative to the largest column, so that the overall scale is set by `global_exp` alone
+                    let emax = half_exps.iter().copied().max().unwrap_or(0) as f64;
                     let e = half_exps.get(j).copied().unwrap_or(0) as f64;
-                    x[i][j] = g(i, j) * 10f64.powf(e / 2.0);
+                    x[i][j] = g(i, j) * 10f64.powf((e - emax) / 2.0);
                 }
             }
         }
@@ -146,7 +148,7 @@ pub fn build_x(c: &Case) -> Mat {
 
 fn shape_strategy(p: usize) -> BoxedStrategy<Shape> {
     let aniso = (0u16..=1000).prop_map(|v| Shape::Aniso { log_ratio: 3.0 * v as f64 / 1000.0 });
-    let scaled = proptest::collection::vec(-3i8..=3, p).prop_map(|half_exps| Shape::Scaled { half_exps });
+    let scaled = proptest::collection::vec(-6i8..=0, p).prop_map(|half_exps| Shape::Scaled { half_exps });
     if p >= 2 {
         let lowrank = (any::<u16>(), 0u16..=1000).prop_map(move |(r, v)| Shape::LowRank {
             rank: 1 + idx(r, p - 1),
@@ -180,7 +182,7 @@ pub fn case_strategy(tier: Tier) -> impl Strategy<Value = Case> {
                 any::<bool>(),
                 shape_strategy(p),
                 offsets_strategy(p),
-                prop_oneof![4 => Just(0i8), 1 => Just(-1i8), 1 => Just(1i8), 1 => Just(2i8)],
+                prop_oneof![5 => Just(0i8), 2 => Just(1i8), 2 => Just(2i8)],
                 any::<u64>(),
             )
         })
